@@ -123,6 +123,15 @@ def stepLine (st : St) (line : String) : St × List String :=
     | none => (st, ["bad-op"])
   -- hand-over / soft-stop traces observed on a real worker (harness/src/bin/handover.rs)
   | "handover" :: _ => (st, ["ok"])
+  | ["ho-new", inflight, idle, lis] =>
+    match inflight.toNat?, idle.toNat?, lis.toNat? with
+    | some n, some k, some l =>
+      let w : SoftStop.W := { base := l, slab := l + n + k, sessions := n + k, listeners := l }
+      ({ st with ss := w, hoIdle := k }, [s!"ho inflight={n} idle={k}"])
+    | _, _, _ => (st, ["bad-op"])
+  | ["ho-deactivate"] =>
+    let (w, o) := SoftStop.step st.ss .deactivateListener
+    ({ st with ss := w }, [showSSOut o ++ s!" exited={boolStr w.exited}"])
   | ["ho-new", inflight, idle] =>
     -- sessions with a request in flight + sessions that report shutting_down() at once
     match inflight.toNat?, idle.toNat? with
